@@ -315,6 +315,37 @@ def _classdict(props):
     return out
 
 
+def inline_route(ctx, sut, serial):
+    """`Object.inline(name, default=...)` (the constructor the documentation offers for minor models) with every
+    falsy JSON default: the class carries it, and so do both serializations."""
+    for number, default in enumerate([None, 0, False, "", [], {}, 0.0, {"a": None}, [None]]):
+        ctx.evaluation()
+        ctx.count("inline_route.cells")
+        case = {"shape": "inline", "default": default}
+        try:
+            cls = sut.Object.inline(f"Inline{serial}x{number}", properties={"p": sut.Property(sut.String())},
+                                    default=copy.deepcopy(default))
+            got = cls.default
+            image = sut.serialize_json(cls)
+            namespace = {}
+            exec(compile(sut.serialize_python(cls), "<generated>", "exec"), namespace)  # pylint: disable=exec-used
+            regenerated = namespace[cls.__name__].default
+        except Exception as exc:  # pylint: disable=broad-except
+            ctx.witness("inline_route_failed", case, f"{type(exc).__name__}: {exc!r}"[:300])
+            continue
+        problems = []
+        if isinstance(got, sut.NotPassed) or not same(got, default):
+            problems.append(f"the class has default {got!r}")
+        if not isinstance(image, dict) or "default" not in image or not same(image["default"], default):
+            problems.append(f"serialize_json: {json.dumps(image, default=repr)[:150]}")
+        if isinstance(regenerated, sut.NotPassed) or not same(regenerated, default):
+            problems.append(f"executed serialize_python has default {regenerated!r}")
+        if problems:
+            ctx.witness("default_lost_on_inline_route", case, f"declared {default!r}: " + "; ".join(problems))
+        else:
+            ctx.count("inline_route.default_kept")
+
+
 def shared_definition(ctx, sut, serial, default_a, default_b):
     """Two positions use one definition; each declares its own (or no) default next to the ref."""
     doc = {
@@ -562,6 +593,9 @@ def run_shard(ctx):
                     serial += 1
                     twin_objects(ctx, sut, serial, default, spelling, plain_first,
                                  VACUOUS_NEIGHBOURS[(idx + plain_first) % len(VACUOUS_NEIGHBOURS)])
+    if ctx.shard == 1 % ctx.nshards:
+        serial += 1
+        inline_route(ctx, sut, serial)
     if ctx.shard == 0:
         serial += 1
         annotation_key_literals(ctx, sut, serial)
